@@ -61,7 +61,12 @@ Calls == <<
   Call("Real((2**60+1,1))", RealBig("Q:1152921504606846977/1"), "real", "(2**60+1,1)"),
   Call("Real(2**60)", RealBig("Q:1152921504606846976/1"), "real", "2**60"),
   Call("Real(float(2**60))", RealBig("Q:1152921504606846976/1"), "real", "2**60"),
-  Call("Int(2**60+1)", IntBig("Z:1152921504606846977"), "int", "2**60+1"), Call("Int(2**60)", IntBig("Z:1152921504606846976"), "int", "2**60") >>
+  Call("Int(2**60+1)", IntBig("Z:1152921504606846977"), "int", "2**60+1"), Call("Int(2**60)", IntBig("Z:1152921504606846976"), "int", "2**60"),
+  \* parameters are part of the structure: a rotation / extension by the full width or by zero is another node than the identity
+  Call("BVRol(b,2)", OpI("bv_rol", <<B>>, <<2, 2>>), "", ""), Call("BVRol(b,0)", OpI("bv_rol", <<B>>, <<2, 0>>), "", ""),
+  Call("BVRor(b,2)", OpI("bv_ror", <<B>>, <<2, 2>>), "", ""), Call("BVRor(b,0)", OpI("bv_ror", <<B>>, <<2, 0>>), "", ""),
+  Call("BVRol(b,1)", OpI("bv_rol", <<B>>, <<2, 1>>), "", ""), Call("BVZExt(b,0)", OpI("bv_zext", <<B>>, <<2, 0>>), "", ""),
+  Call("BVExtract(b,0,1)", OpI("bv_extract", <<B>>, <<2, 0, 1>>), "", "") >>
 
 NCalls == Len(Calls)
 Den(i) == Calls[i].den
